@@ -167,7 +167,10 @@ def run(ctx):
                     elif isinstance(n.value, ast.Call) and ctx.callees(v.fi, n.value) and not (isinstance(n.value.func, ast.Name) and n.value.func.id in ("incidence_matrix", "incidence_matrix_by_order", "binary_incidence_matrix")):
                         opaque.add(nm)
             for r in rets:
-                exprs = [r.value.body, r.value.orelse] if isinstance(r.value, ast.IfExp) else [r.value]
+                rv = r.value
+                if isinstance(rv, ast.Name) and isinstance(v.resolve(rv), (ast.Tuple, ast.IfExp)):
+                    rv = v.resolve(rv)  # result = (adj, mapping); return result
+                exprs = [rv.body, rv.orelse] if isinstance(rv, ast.IfExp) else [rv]
                 for e in exprs:
                     var = e.elts[0] if isinstance(e, ast.Tuple) else e
                     name = norm(var)
